@@ -20,6 +20,7 @@ Conf == /\ Is("config")
                       Check("config.times", Ev.ok => (got.start = S.start /\ got.stop = S.stop /\ got.dt = S.dt)),
                       Check("config.grid", Ev.ok => (got.gridfile = want.gridfile /\ got.subgrid = want.subgrid)),
                       Check("config.forcing", Ev.ok => got.forcing = want.forcing),
+                      Check("config.grid_module_is_forcing_module", Ev.ok => got.gridmod = got.forcemod),
                       Check("config.tracker", Ev.ok => (got.adv = want.adv /\ got.diffusion = want.diffusion)),
                       Check("config.release", Ev.ok => (got.cont = want.cont /\ got.freq = want.freq /\ got.names = want.names)),
                       Check("config.state", Ev.ok => got.state_pvars = want.state_pvars),
